@@ -54,4 +54,4 @@ def run(tier):
     progs = gen.c02_scope(tier)
     return run_e2e_property("C02", tier, EXPLANATION, "DESIGN §4 C02",
                             [("e2e-bundles", progs, "bundle operations over 3-member bundles incl. zero/negative members")],
-                            contract_modules=["contracts.c10", "contracts.c20b", "contracts.c07", "contracts.c07b", "contracts.c02", "contracts.c16b", "contracts.cdispatch", "contracts.c14b"], extra=_boxes)
+                            contract_modules=["contracts.c10", "contracts.c20b", "contracts.c07", "contracts.c07b", "contracts.c02", "contracts.c01c", "contracts.c16b", "contracts.cdispatch", "contracts.c14b"], extra=_boxes)
